@@ -131,6 +131,9 @@ type FuncInfo struct {
 	loops   []*Loop
 	phis    []*ssa.Phi
 	av      map[string]ssa.Value
+	vers    map[*ssa.UnOp]string
+	loadAtoms map[string]ssa.Value
+	ra      map[[2]*ssa.BasicBlock]map[*ssa.BasicBlock]bool
 }
 
 func (c *Ctx) info(fn *ssa.Function) *FuncInfo {
@@ -232,6 +235,10 @@ func (fi *FuncInfo) loopOf(b *ssa.BasicBlock) *Loop {
 // pathStr renders the access path of an address or of a value loaded from
 // one: root.field.field.[*]. ok=false when the root cannot be named.
 func pathStr(v ssa.Value) (root ssa.Value, path string, ok bool) {
+	return pathStr0(v, map[*ssa.Phi]bool{})
+}
+
+func pathStr0(v ssa.Value, inPhi map[*ssa.Phi]bool) (root ssa.Value, path string, ok bool) {
 	var parts []string
 	for depth := 0; depth < 64; depth++ {
 		switch x := v.(type) {
@@ -266,13 +273,27 @@ func pathStr(v ssa.Value) (root ssa.Value, path string, ok bool) {
 			return x, strings.Join(parts, "."), true
 		case *ssa.Phi:
 			// all incoming must agree
+			if inPhi[x] {
+				return nil, "", false
+			}
+			inPhi[x] = true
+			defer delete(inPhi, x)
 			var r0 ssa.Value
 			var p0 string
 			for i, e := range x.Edges {
 				if e == x {
 					continue
 				}
-				r, p, ok := pathStr(e)
+				if c, ok := e.(*ssa.Const); ok && c.Value == nil {
+					continue
+				}
+				r, p, ok := pathStr0(e, inPhi)
+				if !ok {
+					// a cycle back into this phi web through a re-slice (q = q[8:]) keeps the path
+					if cyclesBack(e, inPhi) {
+						continue
+					}
+				}
 				if !ok {
 					return nil, "", false
 				}
@@ -387,29 +408,162 @@ func addNested(m map[*types.Var][]ssa.Instruction, t types.Type, in ssa.Instruct
 	}
 }
 
-// version of a load: the set of writers of the loaded field that can reach it.
+// version of a load. Two loads of the same access path get the same version
+// when one dominates the other and no writer of the field can execute
+// between them. The version is named after the outermost such dominating
+// load; it is empty when no writer can reach the load at all (entry value).
 func (fi *FuncInfo) version(ld *ssa.UnOp) string {
+	if v, ok := fi.vers[ld]; ok {
+		return v
+	}
+	v := fi.version0(ld)
+	if fi.vers == nil {
+		fi.vers = map[*ssa.UnOp]string{}
+	}
+	fi.vers[ld] = v
+	return v
+}
+
+func (fi *FuncInfo) version0(ld *ssa.UnOp) string {
 	f := fieldOfAddr(ld.X)
 	if f == nil {
 		return ""
 	}
 	fi.computeWriters()
-	var ids []string
-	for _, w := range fi.writers[f] {
+	ws := fi.writers[f]
+	reached := false
+	for _, w := range ws {
 		if fi.instrReaches(w, ld) {
-			id := fmt.Sprintf("%d.%d", w.Block().Index, fi.instrIx[w])
-			if fi.instrReaches(w, w) && fi.instrReaches(ld, w) {
-				// writer and load in one cycle: the load is not comparable with others
-				id += "~" + ld.Name()
-			}
-			ids = append(ids, id)
+			reached = true
+			break
 		}
 	}
-	if len(ids) == 0 {
+	if !reached {
 		return ""
 	}
-	sort.Strings(ids)
-	return "@" + strings.Join(ids, ",")
+	// a unique dominating writer with no other writer in between names the state
+	var best ssa.Instruction
+	for _, w := range ws {
+		wb := w.Block()
+		dom := (wb == ld.Block() && fi.instrIx[w] < fi.instrIx[ld]) || (wb != ld.Block() && wb.Dominates(ld.Block()))
+		if !dom {
+			continue
+		}
+		var others []ssa.Instruction
+		for _, o := range ws {
+			if o != w {
+				others = append(others, o)
+			}
+		}
+		if fi.writerBetween(w, ld, others) {
+			continue
+		}
+		if best == nil || best.Block().Dominates(wb) || (best.Block() == wb && fi.instrIx[best] < fi.instrIx[w]) {
+			best = w
+		}
+	}
+	if best != nil {
+		return fmt.Sprintf("@w%d.%d", best.Block().Index, fi.instrIx[best])
+	}
+	r0, p0, ok0 := pathStr(ld.X)
+	if !ok0 {
+		return "@" + ld.Name()
+	}
+	// candidate representatives: loads of the same path that dominate ld
+	var cands []*ssa.UnOp
+	for _, b := range fi.fn.Blocks {
+		if !(b == ld.Block() || b.Dominates(ld.Block())) {
+			continue
+		}
+		for _, in := range b.Instrs {
+			u, ok := in.(*ssa.UnOp)
+			if !ok || u.Op != token.MUL || u == ld {
+				continue
+			}
+			if b == ld.Block() && fi.instrIx[u] > fi.instrIx[ld] {
+				continue
+			}
+			if r, p, ok := pathStr(u.X); ok && r == r0 && p == p0 {
+				cands = append(cands, u)
+			}
+		}
+	}
+	// outermost first: blocks in dominator order = increasing depth; fn.Blocks order is not
+	// dominance order in general, so sort by "dominates"
+	sort.SliceStable(cands, func(i, j int) bool {
+		bi, bj := cands[i].Block(), cands[j].Block()
+		if bi == bj {
+			return fi.instrIx[cands[i]] < fi.instrIx[cands[j]]
+		}
+		return bi.Dominates(bj)
+	})
+	for _, c := range cands {
+		if !fi.writerBetween(c, ld, ws) {
+			return "@" + c.Name()
+		}
+	}
+	return "@" + ld.Name()
+}
+
+// reachAvoid: blocks reachable from the successors of b without entering avoid.
+func (fi *FuncInfo) reachAvoid(b, avoid *ssa.BasicBlock) map[*ssa.BasicBlock]bool {
+	key := [2]*ssa.BasicBlock{b, avoid}
+	if m, ok := fi.ra[key]; ok {
+		return m
+	}
+	m := map[*ssa.BasicBlock]bool{}
+	var stack []*ssa.BasicBlock
+	stack = append(stack, b.Succs...)
+	for len(stack) > 0 {
+		x := stack[len(stack)-1]
+		stack = stack[:len(stack)-1]
+		if x == avoid || m[x] {
+			continue
+		}
+		m[x] = true
+		stack = append(stack, x.Succs...)
+	}
+	if fi.ra == nil {
+		fi.ra = map[[2]*ssa.BasicBlock]map[*ssa.BasicBlock]bool{}
+	}
+	fi.ra[key] = m
+	return m
+}
+
+// writerBetween: a dominates b; can a writer execute after a and before b
+// without a being executed again in between?
+func (fi *FuncInfo) writerBetween(a, b ssa.Instruction, ws []ssa.Instruction) bool {
+	ab, bb := a.Block(), b.Block()
+	for _, w := range ws {
+		wb := w.Block()
+		// w after a
+		after := false
+		if wb == ab {
+			after = fi.instrIx[w] > fi.instrIx[a]
+		} else {
+			after = fi.reachAvoid(ab, ab)[wb]
+		}
+		if !after {
+			continue
+		}
+		// b after w (without re-entering a's block)
+		switch {
+		case wb == bb && fi.instrIx[w] < fi.instrIx[b]:
+			if wb != ab || fi.instrIx[w] > fi.instrIx[a] {
+				return true
+			}
+		case wb == ab:
+			// w later in a's block, b in another block reached from it
+			if bb != ab && fi.reachAvoid(ab, ab)[bb] {
+				return true
+			}
+		default:
+			if fi.reachAvoid(wb, ab)[bb] {
+				return true
+			}
+		}
+	}
+	return false
 }
 
 // ---------------------------------------------------------------- lin of values
@@ -488,8 +642,49 @@ func (fi *FuncInfo) lenOf(v ssa.Value) Lin {
 		}
 	case *ssa.MakeSlice:
 		return fi.lin(x.Len)
+	case *ssa.UnOp:
+		if x.Op == token.MUL {
+			if st := fi.uniqueReachingStore(x); st != nil {
+				if _, isLoad := st.Val.(*ssa.UnOp); !isLoad {
+					return fi.lenOf(st.Val)
+				}
+			}
+		}
 	}
 	return linAtom("len(" + fi.key(v) + ")")
+}
+
+// uniqueReachingStore: the load sees exactly one writer of its field, that
+// writer is a direct store to the same access path, dominates the load and is
+// not in a cycle with it: the loaded value is the stored value.
+func (fi *FuncInfo) uniqueReachingStore(ld *ssa.UnOp) *ssa.Store {
+	f := fieldOfAddr(ld.X)
+	if f == nil {
+		return nil
+	}
+	fi.computeWriters()
+	var only ssa.Instruction
+	for _, w := range fi.writers[f] {
+		if fi.instrReaches(w, ld) {
+			if only != nil {
+				return nil
+			}
+			only = w
+		}
+	}
+	st, ok := only.(*ssa.Store)
+	if !ok || fi.instrReaches(ld, st) {
+		return nil
+	}
+	if !(st.Block() == ld.Block() || st.Block().Dominates(ld.Block())) {
+		return nil
+	}
+	r1, p1, ok1 := pathStr(st.Addr)
+	r2, p2, ok2 := pathStr(ld.X)
+	if !ok1 || !ok2 || r1 != r2 || p1 != p2 {
+		return nil
+	}
+	return st
 }
 
 func (fi *FuncInfo) lin(v ssa.Value) Lin {
@@ -545,7 +740,14 @@ func (fi *FuncInfo) lin0(v ssa.Value) Lin {
 						return fi.lin(sv)
 					}
 				}
-				return linAtom(rootName(r) + "." + p + fi.version(x))
+				a := rootName(r) + "." + p + fi.version(x)
+				if fi.loadAtoms == nil {
+					fi.loadAtoms = map[string]ssa.Value{}
+				}
+				if _, ok := fi.loadAtoms[a]; !ok {
+					fi.loadAtoms[a] = x
+				}
+				return linAtom(a)
 			}
 		}
 	case *ssa.Call:
@@ -1046,6 +1248,8 @@ func (fi *FuncInfo) proveLE0(goal Lin, conds []Cond, extra []Fact, hyp map[strin
 			seenAtom[a] = true
 			if v, ok := av[a]; ok {
 				vals = append(vals, v)
+			} else if v, ok := fi.loadAtoms[a]; ok {
+				vals = append(vals, v)
 			}
 		}
 	}
@@ -1056,6 +1260,17 @@ func (fi *FuncInfo) proveLE0(goal Lin, conds []Cond, extra []Fact, hyp map[strin
 	facts = append(facts, fi.valueFacts(vals)...)
 	for a := range seenAtom {
 		facts = append(facts, axiomFacts(a)...)
+	}
+	// L ≠ 0 together with L ≥ 0 (resp. ≤ 0) gives L ≥ 1 (resp. ≤ −1)
+	for _, f := range facts {
+		if f.Op != NE {
+			continue
+		}
+		if entails(facts, f.L.scale(-1), 2) {
+			facts = append(facts, Fact{f.L.scale(-1).addc(1), LE})
+		} else if entails(facts, f.L, 2) {
+			facts = append(facts, Fact{f.L.addc(1), LE})
+		}
 	}
 	if entails(facts, goal, 4) {
 		return true
@@ -1101,6 +1316,11 @@ func (fi *FuncInfo) proveLE0(goal Lin, conds []Cond, extra []Fact, hyp map[strin
 	sort.Strings(atoms)
 	for _, a := range atoms {
 		phi, ok := av[a].(*ssa.Phi)
+		isLen := false
+		if !ok && strings.HasPrefix(a, "len(") && strings.HasSuffix(a, ")") {
+			phi, ok = av[a[4:len(a)-1]].(*ssa.Phi)
+			isLen = true
+		}
 		if !ok {
 			continue
 		}
@@ -1119,7 +1339,11 @@ func (fi *FuncInfo) proveLE0(goal Lin, conds []Cond, extra []Fact, hyp map[strin
 			pred := phi.Block().Preds[i]
 			sub := goal.clone()
 			delete(sub.t, a)
-			sub = sub.addk(fi.lin(e), coef)
+			if isLen {
+				sub = sub.addk(fi.lenOf(e), coef)
+			} else {
+				sub = sub.addk(fi.lin(e), coef)
+			}
 			// coinduction: the same goal about the same phi may be assumed on a back edge
 			ex := extra
 			if phi.Block().Dominates(pred) {
@@ -1132,6 +1356,65 @@ func (fi *FuncInfo) proveLE0(goal Lin, conds []Cond, extra []Fact, hyp map[strin
 				all = false
 				break
 			}
+		}
+		if all {
+			return true
+		}
+	}
+	return false
+}
+
+// proveAt is proveLE with one level of path sensitivity: if the goal cannot
+// be proved from the dominating conditions of b, the nearest dominating
+// merge blocks are split into their incoming edges (an edge whose
+// conditions are contradictory is vacuous).
+func (fi *FuncInfo) proveAt(goal Lin, b *ssa.BasicBlock, extra []Fact) bool {
+	return fi.proveAny([]Lin{goal}, b, extra)
+}
+
+// proveAny proves the disjunction of goals (each "≤ 0") at b: directly, or
+// per incoming edge of a dominating merge block.
+func (fi *FuncInfo) proveAny(goals []Lin, b *ssa.BasicBlock, extra []Fact) bool {
+	for _, g := range goals {
+		if fi.proveLE(g, b, extra) {
+			return true
+		}
+	}
+	levels := 0
+	for m := b; m != nil && levels < 3; m = m.Idom() {
+		if len(m.Preds) < 2 {
+			continue
+		}
+		// skip loop headers: their back edges are not alternatives of one visit
+		isHeader := false
+		for _, p := range m.Preds {
+			if m.Dominates(p) {
+				isHeader = true
+			}
+		}
+		if isHeader {
+			continue
+		}
+		levels++
+		all := true
+		for _, p := range m.Preds {
+			cs := append(append([]Cond{}, fi.condsAt(b)...), fi.edgeConds(p, m)...)
+			one := false
+			for _, goal := range goals {
+				if fi.proveLE0(goal, cs, extra, map[string]bool{}, 1) {
+					one = true
+					break
+				}
+			}
+			if one {
+				continue
+			}
+			// vacuous edge?
+			if fi.proveLE0(linConst(1), cs, extra, map[string]bool{}, 2) {
+				continue
+			}
+			all = false
+			break
 		}
 		if all {
 			return true
@@ -1173,4 +1456,21 @@ func axiomFacts(atom string) []Fact {
 		}
 	}
 	return nil
+}
+
+// cyclesBack: v is derived (by re-slicing) from a phi that is currently being resolved.
+func cyclesBack(v ssa.Value, inPhi map[*ssa.Phi]bool) bool {
+	for i := 0; i < 16; i++ {
+		switch x := v.(type) {
+		case *ssa.Slice:
+			v = x.X
+		case *ssa.ChangeType:
+			v = x.X
+		case *ssa.Phi:
+			return inPhi[x]
+		default:
+			return false
+		}
+	}
+	return false
 }
